@@ -197,7 +197,7 @@ static void check_expr(const RCP<const Basic> &e, const std::string &recipe, lon
                         int bn = node_count(*e);
                         blame_scan(e, f, A, b, bl, bn);
                         RCP<const Basic> br = transform(f, bl, A);
-                        std::string sig = std::string(FN[f]) + ":" + cls(*bl, 2) + "->" + cls(*br, 1);
+                        std::string sig = std::string(FN[f]) + ":" + cls(*bl, 3) + "->" + cls(*br, 1);
                         if (reported.insert(sig + "|" + astr).second) {
                             std::string d = std::string(FN[f]) + "(" + sstr(e) + ") = " + sstr(r) + " under " + astr + " [recipe " + recipe
                                             + "], but at the satisfying assignment " + bind_str(b, hx, hy) + " the two differ: " + detail;
@@ -239,8 +239,12 @@ int main(int argc, char **argv)
                 return mul(a, b);
             case 2: {
                 // alphabet restriction: no towers such as 8**(8**8) (a 50-million-bit integer)
-                if (is_a<Integer>(*b) && !is_a<Symbol>(*a)) {
-                    const integer_class &n = down_cast<const Integer &>(*b).as_integer_class();
+                if (is_a_Number(*b) && !is_a<Symbol>(*a)) {
+                    integer_class n(0);
+                    if (is_a<Integer>(*b))
+                        n = down_cast<const Integer &>(*b).as_integer_class();
+                    else if (is_a<Rational>(*b))
+                        n = get_num(down_cast<const Rational &>(*b).as_rational_class());
                     if (n > 64 || n < -64)
                         throw std::runtime_error("driver: exponent outside the alphabet");
                 }
@@ -324,15 +328,8 @@ int main(int argc, char **argv)
     R.counters["states_depth<=2"] = n2;
     uint64_t nstates = n2;
     if (thorough && !past_deadline()) {
-        // depth 3 (not materialised): every unary op on a depth-2 state, every binary op between depth-1 states, and every
-        // binary op between a depth-2 state and a leaf of the reduced alphabet {x, -1, 2, 1/2, 1/3}
+        // depth 3 (not materialised): every unary op on a depth-2 state and every binary op between two depth-1 states
         tr.clear();
-        std::vector<int> red;
-        for (int i = 0; i < n0; i++) {
-            const std::string &r = SS.S[i].recipe;
-            if (r == "x" || r == "-1" || r == "2" || r == "1/2" || r == "1/3")
-                red.push_back(i);
-        }
         int nb = T.bin_names.size(), nu = T.un_names.size();
         for (int a = n1; a < n2; a++)
             for (int op = 0; op < nu; op++)
@@ -341,17 +338,11 @@ int main(int argc, char **argv)
             for (int b = n0; b < n1; b++)
                 for (int op = 0; op < nb; op++)
                     tr.push_back(Trans{op, a, b});
-        for (int a = n1; a < n2; a++)
-            for (int l : red)
-                for (int op = 0; op < nb; op++) {
-                    tr.push_back(Trans{op, a, l});
-                    tr.push_back(Trans{op, l, a});
-                }
         CaseSet cs;
         cs.name = "check:depth3";
         cs.n = tr.size();
         cs.counter_names = cn;
-        cs.hang_s = 60;
+        cs.hang_s = 20;
         cs.desc = [&](long long i) { return "refine/simplify under all assumptions on state " + trans_str(T, SS, tr[i]); };
         cs.crash_sig = [&](long long i, const std::string &oc) {
             const Trans &t = tr[i];
@@ -363,6 +354,16 @@ int main(int argc, char **argv)
         };
         cs.body = [&](long long i, Ctx &c) {
             RCP<const Basic> e;
+            double t_start = now();
+            struct Tm {
+                double t0;
+                long long i;
+                ~Tm()
+                {
+                    if (getenv("VERIF_C35_TIMING") && now() - t0 > 0.5)
+                        fprintf(stderr, "SLOW case %lld %.2fs\n", i, now() - t0);
+                }
+            } tm{t_start, i};
             try {
                 e = apply_trans(T, SS, tr[i]);
             } catch (std::exception &) {
@@ -378,7 +379,7 @@ int main(int argc, char **argv)
         run_cases(cs);
         nstates += tr.size();
         if (R.exhaustive)
-            bound += "; plus all 3-operation recipes of the forms unary(S2), op(S1,S1), op(S2,l), op(l,S2) with l in {x,-1,2,1/2,1/3}: "
+            bound += "; plus all 3-operation recipes of the forms unary(a), a of depth 2, and op(a,b), a,b of depth 1: "
                      + std::to_string(tr.size()) + " transitions";
     }
     R.counters["duplicate_arrivals(recipes merged by structural key)"] = SS.duplicate_arrivals;
